@@ -157,14 +157,45 @@ pub fn generate(seed: u64, cases: usize, out: &mut dyn FnMut(String)) {
         let n = order + 1 + rng.below(100) as usize;
         let sig = gen::channel(&mut rng, fam, bps, n);
         let (c2, s2) = (coefs.clone(), sig.clone());
-        let res = catch(move || vh::compute_error(&c2, shift, precision, &s2));
-        let impl_s = match res {
-            Ok(e) => ints(&e),
-            Err(m) => format!("panic:{m}"),
+        let res = catch(move || vh::compute_error_fits(&c2, shift, precision, &s2));
+        let (impl_s, fits) = match res {
+            Ok((e, f)) => (ints(&e), (f as u8).to_string()),
+            Err(m) => (format!("panic:{m}"), "-".to_string()),
         };
         out(format!(
-            "kernel id=l{i} cls=lpcerr|{fam}|b{bps}|o{order}|p{precision} fn=lpcerr coefs={} shift={shift} precision={precision} sig={} impl={impl_s}",
+            "kernel id=l{i} cls=lpcerr|{fam}|b{bps}|o{order}|p{precision} fn=lpcerr coefs={} shift={shift} precision={precision} sig={} impl={impl_s} impl_fits={fits}",
             ints(&coefs), ints(&sig)
+        ));
+    }
+    // ---- the dispatch boundary of compute_error (F14): max|x| * (sum|c| + 1) just below / at / above i32::MAX,
+    // shift 0, a burst whose signs match the coefficients followed by a sample of the opposite sign: the
+    // exact residual is +-max|x| * (sum|c| + 1); plus the residual -2^31 exactly on the wide path
+    for i in 0..12usize {
+        let order = 1 + rng.below(12) as usize;
+        let precision = 6 + rng.below(10) as usize;
+        let cmax = (1i64 << (precision - 1)) - 1;
+        let coefs: Vec<i16> = (0..order).map(|_| { let v = rng.range(1, cmax); (if rng.chance(50) { v } else { -v }) as i16 }).collect();
+        let ssum: i64 = coefs.iter().map(|c| i64::from(*c).abs()).sum();
+        let edge = ((1i64 << 31) - 2) / (ssum + 1);
+        let m = match i % 4 { 0 => edge, 1 => edge + 1, 2 => ((1i64 << 31) - 2) / ssum, _ => ((1i64 << 31) / (ssum + 1)).max(1) };
+        let m = m.clamp(1, (1 << 24) - 1);
+        let sgn: i64 = if i % 2 == 0 { 1 } else { -1 };
+        let mut sig = vec![0i32; order + 3];
+        for (j, c) in coefs.iter().enumerate() {
+            sig[order - 1 - j] = (if *c >= 0 { sgn * m } else { -sgn * m }) as i32;
+        }
+        // i % 4 == 3: tune the sample so that the residual is exactly -2^31 (or as close as the range allows)
+        sig[order] = if i % 4 == 3 { (sgn * ssum * m - (1i64 << 31)).clamp(-m, m) as i32 } else { (-sgn * m) as i32 };
+        sig[order + 1] = (sgn * m / 2) as i32;
+        let (c2, s2) = (coefs.clone(), sig.clone());
+        let res = catch(move || vh::compute_error_fits(&c2, 0, precision, &s2));
+        let (impl_s, fits) = match res {
+            Ok((e, f)) => (ints(&e), (f as u8).to_string()),
+            Err(m) => (format!("panic:{m}"), "-".to_string()),
+        };
+        out(format!(
+            "kernel id=lb{i} cls=lpcerr|edge{}|o{order}|p{precision} fn=lpcerr coefs={} shift=0 precision={precision} sig={} impl={impl_s} impl_fits={fits}",
+            i % 4, ints(&coefs), ints(&sig)
         ));
     }
     // ---- deinterleave / LE conversions (C14): every channel count, stale destination contents
